@@ -516,7 +516,10 @@ RANDOM_ITEMS = [enc(s) for s in ('{a}', '{a}', '[b]', '{}', '[]', '[a]', '{[b]}'
                 'P0', 'P0', 'P1', 'P2', 'P3', 'P4', 'Q0', 'Q2',
                 enc(r'{A \textbf{b} c}'), enc(r'{A \textbf{b} c}'), 'g:' + enc(r'{A \textbf{b} c}'),
                 enc('[$x$]'), 'g:' + enc('[$x$]'), enc('{{k}}'), 'g@9:' + enc('{{k}}'),
-                enc(r'{\begin{e}z\end{e}}'), 'g:' + enc('{plain}')]
+                enc(r'{\begin{e}z\end{e}}'), 'g:' + enc('{plain}')] + \
+               [enc(x) for x in (  # delimiters, escapes and line breaks at the ends of the content
+                   '{a\\\\}', '[2\\\\]', '{a\\}', '{\\}}', '[\\]]', '{{x}}', '{{', '{a}}', '[[y]]', '{\\textbf{a}}', '{ }', '{\n}',
+                   '{a\\\\}', '[2\\\\]')]
 
 
 def random_history(rng, maxlen, items=None):
